@@ -93,6 +93,17 @@ class C07(Prop):
                 f = N(rng.choice(['always', 'eventually']), f, ivl=(0, rng.randint(1, 2)))
             if rng.random() < 0.2:
                 f = N('not', f)
+        band = None
+        if kind in ('dt_off', 'dt_on', 'ct_off', 'ct_on') and rng.random() < 0.04:
+            # a narrow band between two constants that agree in many leading digits (1e-11 apart near 0.5, or 0.2 apart
+            # at epoch size): `(x >= c1) and not (x >= c2)` with samples inside, below and above the band
+            N, V, C = lang.N, lang.V, lang.C
+            c1, d = rng.choice([(0.5, 1e-11), (2.0, 4e-12), (1700000000.25, 0.25), (1758800000.0, 0.5), (0.5, 1e-7)])
+            lo, hi = N(rng.choice(['geq', 'gt']), V('x'), C(c1)), N(rng.choice(['geq', 'gt']), V('x'), C(c1 + d))
+            f = N('and', lo, N('not', hi)) if rng.random() < 0.6 else N('or', N('not', lo), hi)
+            if rng.random() < 0.3 and kind != 'ct_on':
+                f = N(rng.choice(['once', 'historically']), f, ivl=(0, 1))
+            band = [c1 + d / 2, c1 - d, c1 + 2 * d, c1 + d / 4, c1 - 3 * d]
         wide = kind in ('dt_off', 'dt_on') and rng.random() < 0.04
         if wide:
             # windows of 33..130 samples on traces of 100..170 samples
@@ -108,6 +119,9 @@ class C07(Prop):
             case['useed'] = rng.randrange(1 << 30)
         if kind.startswith('dt'):
             case['data'] = lang.gen_trace(rng, names, rng.randint(1, 16))
+            if band:
+                case['data'] = dict((k, [rng.choice(band) for _ in range(rng.randint(2, 10))]) for k in names)
+                case['band'] = True
             if wide:
                 n7 = rng.randint(100, 170)
                 case['data'] = dict((k, lang.gen_values(rng, n7, rng.choice(['tiny', 'small']))) for k in names)
@@ -120,6 +134,10 @@ class C07(Prop):
             if kind == 'ct_on':
                 base = lang.gen_signal(rng, n=rng.randint(2, 8), start=Fr(0))
                 sig = dict((k, [(t, rng.choice(lang.SMALL)) for (t, _) in base]) for k in names)
+            if band:
+                base = lang.gen_signal(rng, n=rng.randint(2, 8), start=Fr(0))
+                sig = dict((k, [(t, rng.choice(band)) for (t, _) in base]) for k in names)
+                case['band'] = True
             case['signals'] = sig_text(sig)
         case['nperturb'] = 8 if (ctx is None or ctx.tier == 'quick') else 32
         case['structs'] = kind == 'ct_on' and rng.random() < 0.25
@@ -173,6 +191,8 @@ class C07(Prop):
         dense = kind.startswith('ct')
         rng = random.Random(case.get('pseed', 0))
         v.info['kind:' + kind] = 1
+        if case.get('band'):
+            v.info['class:narrow-band-between-near-constants'] = 1
         self._iasd = None
         if case.get('ia') and not dense:
             # interface-aware *robustness* semantics: an overridden predicate is +-inf by its truth value, so the sign
